@@ -2,7 +2,7 @@ from common import COMMON_TRUST
 
 PROP = {
     "generated": ["DownlinkConsts"],
-    "lean_modules": ["SwimVerif.Model.DownlinkRt", "SwimVerif.Proofs.DownlinkRead", "SwimVerif.Proofs.DownlinkWrite",
+    "lean_modules": ["SwimVerif.Model.DownlinkRt", "SwimVerif.Proofs.DownlinkRead", "SwimVerif.Proofs.DownlinkWrite", "SwimVerif.Proofs.DownlinkSys",
                      "SwimVerif.Generated.DownlinkConsts", "SwimVerif.Model.WriteTask"],
     "engines": [
         {"name": "dlrt", "crate": "core", "bin": "sv-c07", "machine": "c07",
